@@ -38,6 +38,9 @@ EXTRA = [
                                   {'t': 'UD', 'comp': 0xE500, 'sub': 1, 'ver': 1,
                                    'payload': (b'\x00\x00\x00\x01' + bytes(range(12))).hex()}]},
 ]
+EXTRA.append({'creator': 'O', 'sections': [
+    {'t': 'UD', 'comp': 0x2000, 'sub': 3, 'ver': 1, 'payload': (b'\\' * 44 + b'\n' + b'"' * 20 + b':' + b'\\"' * 12).hex()},
+    {'t': 'UD', 'comp': 0xABCD, 'sub': 1, 'ver': 1, 'payload': (b'\\' * 32 + b'"' * 16).hex()}]})
 QUICK_VALUES = ['00', 'ff', 'x01', 'x80', '+1', '-1', '7f', '80']
 
 
@@ -63,10 +66,10 @@ def plan(tier, seed):
                     ch.append({'k': 'corrupt', 'base': bi, 'opt': opt, 'vals': [lo, lo + 64]})
             ch.append({'k': 'cli', 'base': bi, 'opt': opt, 'stride': 7 if tier == 'quick' else 2})
         ch.append({'k': 'small', 'opt': opt})
-        ch.append({'k': 'subproc', 'opt': opt, 'base': nb - 3})
+        ch.append({'k': 'subproc', 'opt': opt, 'base': nb - 4})
     if tier == 'thorough':
         for opt in (False, True):
-            for bi in (1, nb - 3):
+            for bi in (1, nb - 4):
                 for part in range(8):
                     ch.append({'k': 'pairs', 'base': bi, 'opt': opt, 'part': part, 'parts': 8})
     return ch
@@ -175,8 +178,18 @@ def _cli(case, data, base, bad):
         os.unlink(path)
 
 
+class TooManyHangs(Exception):
+    pass
+
+
 def _do(res, case, every=997):
     vs = eval_case(case)
+    if vs and vs[0]['key'].endswith('hang'):
+        res.bump('hangs')
+        if res.extra['hangs'] >= 3:
+            res.case(outcome=vs[0]['key'])
+            res.add(vs)
+            raise TooManyHangs()
     res.case(nontrivial_key=json.dumps(case, sort_keys=True), outcome=vs[0]['key'] if vs else LAST['outcome'],
              sample=case if res.evals % every == 1 else None)
     res.add(vs)
@@ -231,6 +244,14 @@ def run_chunk(chunk):
         if __debug__:
             raise RuntimeError('-O worker is not optimised')
     impl.ensure(False)
+    try:
+        _run(res, chunk, k, opt)
+    except TooManyHangs:
+        pass            # three cases of this chunk already hung: reported, the rest would only take time
+    return res
+
+
+def _run(res, chunk, k, opt):
     if k in ('prefix', 'corrupt', 'cli', 'pairs'):
         bi = chunk['base']
         base = pelgen.encode_pel(pelgen.pel_from_spec(bases()[bi]))
